@@ -88,6 +88,7 @@ type Extra struct {
 	Module   string
 	ExtraCfg func(tier string) string
 	Frac     func(tier string) float64 // 0 or 1 = all units
+	Keep     func(u *Unit) bool         // if set: only these units
 }
 
 type Report struct {
@@ -180,6 +181,15 @@ func Enumerate(f *Family, sc *work.Scratch, devs []string, tier string) ([]*Unit
 		us, r, err := all[i+1].us, all[i+1].r, all[i+1].err
 		if err != nil {
 			return nil, r, err
+		}
+		if x.Keep != nil {
+			var keep []*Unit
+			for _, u := range us {
+				if x.Keep(u) {
+					keep = append(keep, u)
+				}
+			}
+			us = keep
 		}
 		frac := 1.0
 		if x.Frac != nil {
